@@ -1,0 +1,92 @@
+//go:build verif
+
+package metrics
+
+// Contracts for the govc verifier (/verif). Comment-only.
+
+// ---- the ring window, abstracted by its most recent metric (container/ring is library code) ----
+//@ ghost var winLatest map[*Window]*api.Metric
+
+//@ func (mw *Window) Latest
+//@   opts trusted
+//@   ensures winLatest[mw] == nil ==> err != nil && res == nil
+//@   ensures winLatest[mw] != nil ==> err == nil && res == winLatest[mw]
+//@   modifies nothing
+
+//@ func (mw *Window) All
+//@   opts trusted
+//@   modifies nothing
+
+//@ func (mw *Window) Distribution
+//@   opts trusted
+//@   modifies nothing
+
+//@ func phi
+//@   opts trusted
+//@   modifies nothing
+
+//@ spec func expiredAt(m *api.Metric, t int) bool = t > unixnano(m.Expire)
+//@ spec func counter(mc *Checker, p peer.ID, n string) int = ite(haskey(mc.failedPeers, p), mc.failedPeers[p][n], 0)
+
+// ---- membership filter ----
+//@ func PeersetFilter
+//@   property C09
+//@   ensures [only-members] forall i int :: 0 <= i && i < len(res) ==> in(res[i].Peer, elems(peerset))
+//@   ensures [from-input] forall i int :: 0 <= i && i < len(res) ==> in(res[i], elems(metrics))
+//@   ensures [all-members-kept] forall j int :: 0 <= j && j < len(metrics) && in(metrics[j].Peer, elems(peerset)) ==> in(metrics[j], elems(res))
+//@   loop 1 (range peerset)
+//@     invariant forall p peer.ID :: haskey(peerMap, p) <==> (exists k int :: 0 <= k && k < idx1 && peerset[k] == p)
+//@   loop 2 (range metrics)
+//@     invariant forall p peer.ID :: haskey(peerMap, p) <==> in(p, elems(peerset))
+//@     invariant forall i int :: 0 <= i && i < len(filtered) ==> in(filtered[i].Peer, elems(peerset)) && in(filtered[i], elems(metrics))
+//@     invariant forall j int :: 0 <= j && j < idx2 && in(metrics[j].Peer, elems(peerset)) ==> in(metrics[j], elems(filtered))
+//@   modifies nothing
+
+// ---- store lookups ----
+//@ func (mtrs *Store) PeerLatest
+//@   property C09
+//@   ensures res != nil ==> haskey(mtrs.byName, name) && haskey(mtrs.byName[name], pid) && res == winLatest[mtrs.byName[name][pid]]
+//@   ensures haskey(mtrs.byName, name) && haskey(mtrs.byName[name], pid) ==> res == winLatest[mtrs.byName[name][pid]]
+//@   ensures !(haskey(mtrs.byName, name) && haskey(mtrs.byName[name], pid)) ==> res == nil
+//@   modifies nothing
+
+//@ func (mtrs *Store) PeerMetricAll
+//@   property C09
+//@   modifies nothing
+
+//@ func (mtrs *Store) Distribution
+//@   property C09
+//@   modifies nothing
+
+// "after which its stale metric is forgotten": exactly the (peer, name) window goes away
+//@ func (mtrs *Store) RemovePeerMetrics
+//@   property C09
+//@   ensures !haskey(mtrs.byName[name], pid)
+//@   ensures forall n string, p peer.ID :: (n != name || p != pid) ==> (haskey(mtrs.byName[n], p) <==> haskey(old(mtrs.byName[n]), p)) && mtrs.byName[n][p] == old(mtrs.byName[n][p])
+//@   ensures forall n string :: haskey(mtrs.byName, n) <==> haskey(old(mtrs.byName), n)
+//@   ensures forall o *Store :: o != mtrs ==> *o == old(*o)
+//@   modifies heap(Store)
+
+// ---- failure decision ----
+// "A peer whose latest metric is unexpired is never reported as failed"
+//@ func (mc *Checker) failed
+//@   property C09
+//@   let lw = mc.metrics.byName[metric][pid]
+//@   ensures [unexpired-never-failed] haskey(mc.metrics.byName, metric) && haskey(mc.metrics.byName[metric], pid) && winLatest[lw] != nil && !expiredAt(winLatest[lw], now) ==> !res4
+//@   ensures [no-metric-is-failed] !(haskey(mc.metrics.byName, metric) && haskey(mc.metrics.byName[metric], pid)) ==> res4
+//@   modifies nothing
+
+//@ func (mc *Checker) FailedMetric
+//@   property C09
+//@   let lw = mc.metrics.byName[metric][pid]
+//@   ensures [unexpired-never-failed] haskey(mc.metrics.byName, metric) && haskey(mc.metrics.byName[metric], pid) && winLatest[lw] != nil && !expiredAt(winLatest[lw], now) ==> !res
+//@   modifies nothing
+
+// "reported once, not repeatedly, after which its stale metric is forgotten"
+//@ func (mc *Checker) alert
+//@   property C09
+//@   ensures [others-untouched] forall p peer.ID, n string :: (p != pid || n != metricName) ==> counter(mc, p, n) == old(counter(mc, p, n))
+//@   ensures [once] old(counter(mc, pid, metricName)) < MaxAlertThreshold ==> counter(mc, pid, metricName) == old(counter(mc, pid, metricName)) + 1
+//@   ensures [then-forgotten] old(counter(mc, pid, metricName)) >= MaxAlertThreshold ==> err == nil && counter(mc, pid, metricName) == 0 && !haskey(mc.metrics.byName[metricName], pid)
+//@   ensures [store-kept-until-forgotten] old(counter(mc, pid, metricName)) < MaxAlertThreshold ==> mc.metrics.byName == old(mc.metrics.byName)
+//@   modifies heap(Checker), heap(Store)
